@@ -1,17 +1,78 @@
-(* C01 — traversal is exact.  PLACEHOLDER statements until proofs/WalkProofs.v lands: only
-   the generated gate definitions are pinned here. *)
-From Coq Require Import List NArith Bool.
+(* C01 — traversal is exact: every entry in the depth window, once, nothing else.
+   model/Walk.v is the state-threading model of Searcher::visit_dir + the root loop; its gate
+   expressions, depth arithmetic and queue discipline are regenerated from searcher.rs on
+   every run (gen/GatesGen.v).  spec/WalkSpec.v is the textbook listing.  Statements only. *)
+From Coq Require Import List NArith Bool Permutation Sorted.
 From FS Require Import lib.Str gen.GatesGen model.Walk spec.WalkSpec.
+From FS Require Import proofs.WalkBase proofs.WalkDfs proofs.WalkBfs proofs.WalkRoots proofs.WalkCor.
 Import ListNotations.
 Open Scope N_scope.
 
-(* the reporting gate is the lower half of the window, the descending gate the upper half *)
+(* the generated gates are the two halves of the depth window; the queue is FIFO *)
 Theorem C01_gates_are_the_window : forall mn mx d,
   gate_report mn d = ((mn =? 0) || (mn <=? d)) /\ gate_descend mx d = ((mx =? 0) || (d <? mx)).
 Proof. intros; split; reflexivity. Qed.
-
 Theorem C01_queue_is_fifo : queue_pop_front = true /\ queue_push_back = true.
 Proof. split; reflexivity. Qed.
 
+(* the depth computed from canonical path strings is the nesting level (root's children = 1) *)
+Theorem C01_depth_arith : forall c names, canon_ok c -> Forall (fun nm => name_okb nm = true) names ->
+  let canon := fold_left join_path names c in
+  calc_depth canon = calc_depth c + N.of_nat (length names) /\
+  depth_of (calc_depth canon) (base_depth_of 0 (calc_depth c)) = N.of_nat (length names) + 1.
+Proof. exact depth_of_level. Qed.
+
+(* depth-first: the rows are exactly the window-filtered pre-order listing (every directory immediately
+   followed by its subtree), for every tree, filter, window, start state *)
+Theorem C01_dfs_exact : forall accept buffered o fuel F nm i g kk p c s0,
+  o_dfs o = true ->
+  (height (NDir nm i g true kk) <= fuel)%nat -> (height (NDir nm i g true kk) <= F)%nat ->
+  canon_ok c -> names_ok kk -> NoDup (i :: inodes_of kk) ->
+  (forall x, In x (vis s0) -> ~ In x (i :: inodes_of kk)) ->
+  let es := preorder (o_ign o) F (o_max o) p kk in
+  let new := spec_rows accept (o_arc o) (o_min o) (o_max o) es in
+  exists s1, walk_root accept buffered 0 o fuel p c (NDir nm i g true kk) s0 = Some s1 /\
+    out s1 = out s0 ++ new /\ errs s1 = errs s0 ++ failing (o_max o) es /\
+    found s1 = found s0 + N.of_nat (length new) /\ queue s1 = [] /\
+    exists a, vis s1 = a ++ i :: vis s0 /\ incl a (inodes_of kk).
+Proof. exact T1_dfs. Qed.
+
+(* breadth-first: the window-filtered level-order listing *)
+Theorem C01_bfs_exact : forall accept buffered o fuel F nm i g kk p c s0,
+  o_dfs o = false ->
+  (nodes (NDir nm i g true kk) <= fuel)%nat -> (height (NDir nm i g true kk) <= F)%nat ->
+  canon_ok c -> names_ok kk -> NoDup (i :: inodes_of kk) ->
+  (forall x, In x (vis s0) -> ~ In x (i :: inodes_of kk)) ->
+  let es := levelorder (o_ign o) F (o_max o) p kk in
+  let new := spec_rows accept (o_arc o) (o_min o) (o_max o) es in
+  exists s1, walk_root accept buffered 0 o fuel p c (NDir nm i g true kk) s0 = Some s1 /\
+    out s1 = out s0 ++ new /\ errs s1 = errs s0 ++ failing (o_max o) es /\
+    found s1 = found s0 + N.of_nat (length new) /\ queue s1 = [] /\
+    exists a, vis s1 = a ++ i :: vis s0 /\ incl a (inodes_of kk).
+Proof. exact T2_bfs. Qed.
+
+(* several disjoint roots, each with its own options and order: the concatenation of their listings *)
+Theorem C01_roots : forall accept buffered fuel F roots, roots_ok fuel F roots ->
+  exists s1, walk_roots accept buffered 0 fuel roots st0 = Some s1 /\
+    out s1 = flat_map (root_rows accept F) roots /\ errs s1 = flat_map (root_errs F) roots /\
+    found s1 = N.of_nat (length (out s1)).
+Proof. exact T3_roots_st0. Qed.
+
+(* bfs and dfs list the same entries *)
+Theorem C01_bfs_dfs_same_set : forall ign mx F dir kids,
+  Permutation (levelorder ign F mx dir kids) (preorder ign F mx dir kids).
+Proof. exact T5a_perm. Qed.
+
+(* in bfs mode no entry precedes an entry of smaller depth *)
+Theorem C01_bfs_depth_monotone : forall ign mx F dir kids,
+  Sorted N.le (map e_depth (levelorder ign F mx dir kids)).
+Proof. exact T5b_bfs_depth_sorted. Qed.
+
 Print Assumptions C01_gates_are_the_window.
 Print Assumptions C01_queue_is_fifo.
+Print Assumptions C01_depth_arith.
+Print Assumptions C01_dfs_exact.
+Print Assumptions C01_bfs_exact.
+Print Assumptions C01_roots.
+Print Assumptions C01_bfs_dfs_same_set.
+Print Assumptions C01_bfs_depth_monotone.
